@@ -27,7 +27,7 @@ MANIFEST = {
 
 def generate(seed, tier):
     rng = Streams(seed).get('gen')
-    base = rng.choice(['hreal', 'hreal', 'hlow'])
+    base = rng.choice(['hreal', 'hreal', 'hlow', 'hboundary'])
     n = rng.randint(3, 40 if tier == 'thorough' else 28)
     shape = rng.choice(['random', 'two_chains', 'late_longer', 'ties', 'bushy', 'double_reorg'])
     deep_m = 0
@@ -71,7 +71,9 @@ def generate(seed, tier):
         ops.append({'op': 'add', 'parent': p, 'path': rng.choice(['validated', 'novalidation']) if not (shape == 'deep' and i < deep_m) else 'novalidation',
                     'dt': rng.randrange(1, 1000), 'miner': rng.randrange(12)})
     # every state is installed in a node's chain manager and read back from there (what the node reports)
-    return {'config': {'mode': 'tree', 'base': base, 'shape': shape, 'served': rng.random() < 0.3}, 'ops': ops}
+    # hboundary: the root is 1-4 blocks below a retarget boundary, so rival blocks at and above it state different targets
+    return {'config': {'mode': 'tree', 'base': base, 'shape': shape, 'served': rng.random() < 0.3,
+                       'k': rng.randint(1, 4), 'elapsed': rng.randint(600_000, 1_150_000)}, 'ops': ops}
 
 
 def generate_i(seed, tier, i):
@@ -148,6 +150,12 @@ def _run_tree(script, res, trace):
         reset_horizon(True)
         cs, root = W.genesis_base()
         chain = RefChain()
+    elif base == 'hboundary':
+        reset_horizon(False)
+        cfg_ = script['config']
+        cs, root = W.hollow_base_with_start(171_360 - cfg_.get('k', 2), W.TRIVIAL_TARGET, 171_360 - 10_080,
+                                            W.BASE_TS - cfg_.get('elapsed', 1_000_000))
+        chain = RefChain(lambda h: 0)
     else:
         reset_horizon(False)
         cs, root, _ = W.hollow_base(W.H_REAL, W.TRIVIAL_TARGET)
@@ -180,7 +188,12 @@ def _run_ops(script, res, trace, cs, chain, stored, ops, base, cm):
         ts = rb.ts + max(1, op.get('dt', 1))
         view = W.view_at(cs, rb.id)
         validated = op.get('path') == 'validated' and base != 'hlow'
-        blk = consensus.construct_block_for_mining(view, [], W.key(op.get('miner', 0) % 12).pk, ts, b'', n)
+        # the node's own assembly, with a nonce search (above a retarget boundary the target is no longer the trivial one)
+        # (on the real genesis the stated target is the real network's: no search there, and only the unvalidated path)
+        if base == 'hlow':
+            blk = consensus.construct_block_for_mining(view, [], W.key(op.get('miner', 0) % 12).pk, ts, b'', n)
+        else:
+            blk = W.mine_honest(view, [], W.key(op.get('miner', 0) % 12), ts, nonce0=n)
         bid = rules.block_id(blk)
         if bid in chain.blocks:
             res.bump('duplicate_skipped')
@@ -209,6 +222,8 @@ def _run_ops(script, res, trace, cs, chain, stored, ops, base, cm):
             res.bump('probe:reorganisation')
         if new_rb.height < old_rb.height:
             res.bump('probe:shorter_side_block')
+        if new_rb.height == old_rb.height and new_rb.target != old_rb.target:
+            res.bump('probe:tie_between_blocks_stating_different_targets')
         if new_rb.height + 100 <= old_rb.height:
             res.bump('probe:side_block_100_or_more_below_the_head')
         if not _check_state(res, cs, chain, stored, full=(n == len(ops) - 1 or n % 7 == 0)):
@@ -264,5 +279,6 @@ def describe():
         'assumptions': ['work = height, as the statement says', 'duplicate arrivals of a stored block are outside the quantifier'],
         'expected_probes': ['probe:tie_arrived', 'probe:reorganisation', 'probe:shorter_side_block',
                             'probe:side_block_100_or_more_below_the_head', 'probe:state_served_by_chain_manager',
+                            'probe:tie_between_blocks_stating_different_targets',
                             'enumerated_parent_choice_sequences'],
     }
